@@ -34,7 +34,7 @@ META = {
 CFGS = ['off', 'debug', 'trace', 'env']
 INT_T = ['f2', 'fv', 'fm', 'fa', 'ms', 'mv', 'ia', 'iv']
 PA_T = ['fp', 'ip']
-SHAPES = {'it': 'I', 'f2': 'IS', 'fv': 'V', 'fm': 'SV', 'fp': 'PA', 'fa': 'A', 'ms': 'IS', 'mv': 'SV', 'ia': 'IS', 'iv': 'SV', 'ip': 'PA'}
+SHAPES = {'ow': '', 'ox': 'I', 'oz': 'I', 'it': 'I', 'f2': 'IS', 'fv': 'V', 'fm': 'SV', 'fp': 'PA', 'fa': 'A', 'ms': 'IS', 'mv': 'SV', 'ia': 'IS', 'iv': 'SV', 'ip': 'PA'}
 WHEN_OK = ['f2', 'ms', 'ia', 'fv']          # When(..) only where C04's finding F6 (variadic expansion of fixed args) cannot interfere
 INTS = ['-3', '-1', '0', '1', '2', '5', '7', '42', '1000000']
 STRS = ['s', 'sa', 'sab', 'sxyz', 's0']
@@ -158,6 +158,20 @@ def gen_streams(tier, rng, scale=1):
     for i in range((6 if tier == 'quick' else 24) * scale):
         risky.append(gen_scenario(r, r.choice(['fa', 'fp', 'ip']), cyc=True))
     risky = [b for b in risky if CYC_RE.search(b)]
+    r = rng.fork('origin')
+    for i in range((3 if tier == 'quick' else 30) * scale):
+        t = r.choice(['ow', 'ox', 'oz'])
+        arg = lambda: ('-' if t == 'ow' else r.choice(INTS))
+        o = []
+        for _ in range(r.choice([1, 2])):
+            if r.chance(1, 3):
+                o.append('call ' + arg())
+            o.append('apply ' + r.choice(['org%d' % r.below(2000), 'org%d' % r.below(9), 'sum%d' % r.below(9)]))
+            o += ['call ' + arg() for _ in range(r.choice([1, 2, 3]))] + ['cancel']
+        if r.chance(1, 3):
+            o.insert(r.below(len(o)), 'dbg ' + r.choice(['on', 'off', 'tron', 'troff']))
+        risky.append(t + ' ' + ' ; '.join(o))
+    risky += ['lib ' + f for f in LIB_FUNCS]
     r = rng.fork('it')
     for i in range((3 if tier == 'quick' else 12) * scale):
         o = []
@@ -173,7 +187,15 @@ def gen_streams(tier, rng, scale=1):
     return list(dict.fromkeys(corpus() + bodies)), list(dict.fromkeys(CORPUS_RISKY + risky)), list(dict.fromkeys(sv))
 
 
+LIB_FUNCS = ['fmt.Print', 'fmt.Println', 'fmt.Fprint', 'fmt.Sprint', 'fmt.Sprintln', 'strings.Repeat', 'strings.ToUpper',
+             'strings.TrimSpace', 'strconv.Quote', 'strconv.FormatBool', 'path.Join', 'filepath.Base']   # none is on the logger's path today
+
 CORPUS_RISKY = [
+    'ow call - ; apply org1000 ; call - ; cancel ; call -',            # Origin placeholder of a leaf whose first instructions are RIP-relative
+    'ox apply org5 ; call 3 ; call -1 ; cancel ; call 2',
+    'oz call 1 ; apply org7 ; call 42 ; apply sum1 ; call 2 ; cancel',
+    'ow dbg tron ; apply org1 ; call - ; dbg troff ; call - ; cancel',
+
     'fa apply sum0 ; call z20',                        # F13 as in DESIGN §8: s[0] = s
     'fa ret 5 ; call z21',                             # through the When stub (MakeFunc over m.callback)
     'fp apply echo ; call n1,z22',
@@ -281,7 +303,7 @@ def execute(bodies, risky, sv, tag='c19'):
         g = {}
         for cfg in CFGS:
             g[cfg] = len(ops)
-            ops.append(f'c19.s {cfg} {body}')
+            ops.append(f'c19.lib {cfg} {body.split()[1]}' if body.startswith('lib ') else f'c19.s {cfg} {body}')
         groups.append((body, g, rk))
     sv0 = len(ops)
     ops += sv
@@ -417,7 +439,7 @@ def run(tier):
         dist[t] = dist.get(t, 0) + 1
     opk = {}
     for body, g, rk in groups:
-        for o in body.split(' ; '):
+        for o in ([] if body.startswith('lib ') else body.split(' ; ')):
             k = o.split()[1] if o.split()[0] in SHAPES else o.split()[0]
             opk[k] = opk.get(k, 0) + 1
     dbg_lines = [impl[g['debug']] for _, g, _ in groups if impl[g['debug']]]
@@ -439,7 +461,7 @@ def run(tier):
         'traces_validated_against_impl': len(ops) - len(diffs),
         'rule': 'one evaluation = one scenario under one logging configuration (or one SprintV vector); every scenario is replayed under off/debug/trace/env '
                 'in separate processes; non-trivial = distinct (target, transcript) of scenarios in which a mock was reached with debug open (wrapper run or call logged)',
-        'distribution': {'scenarios': len(groups), 'isolated_scenarios(cycles, logger-called target)': sum(1 for _, _, rk in groups if rk), 'sprintv_vectors': len(sv),
+        'distribution': {'scenarios': len(groups), 'isolated_scenarios(cycles, logger-called target, Origin leaf targets, library functions)': sum(1 for _, _, rk in groups if rk), 'sprintv_vectors': len(sv),
                          'by_target': dist, 'by_op': opk, 'callback_runs_through_wrapper(debug cfg)': wrapped_runs, 'call_log_lines(debug cfg)': logged,
                          'panic_outcomes(debug cfg)': panics, 'process_deaths': crashes, 'oracle_failures': len(bad),
                          'oracle_failures_matching_known_finding': sum(1 for b in bad if b[2] is not None), 'model_disagreements': len(diffs),
